@@ -1,7 +1,7 @@
 SPECIFICATION Spec
 CONSTANTS DocIds = {"d1"}
  SecIds = {"s1","s2"}
- PropIds = {"p1"}
+ PropIds = {"p1","p2"}
  PoolIds = {}
  OtherIds = {}
  Names = {"a"}
